@@ -27,11 +27,21 @@ Ltac hknown := first [ (apply hn_ro; apply ro_arr_layout; intros; apply ro_same_
 
 
 
+Ltac kind_facts :=
+  unfold dt_is in *;
+  repeat match goal with
+         | H : negb _ = false |- _ => apply negb_false_iff in H
+         | H : dk_eqb _ _ = true |- _ => apply dk_eqb_eq in H
+         | H : _ && _ = true |- _ => apply andb_prop in H; destruct H
+         | H : _ || _ = false |- _ => apply orb_false_elim in H; destruct H
+         end.
+Ltac kind_tac := cbn; first [ reflexivity | assumption | congruence | (eapply resok_kind; eassumption)
+                            | (kind_facts; cbn in *; first [assumption | congruence | (symmetry; assumption)]) ].
 Ltac resok_leaf :=
   let a := fresh "a" in let s := fresh "s" in let HPs := fresh "HPs" in let p := fresh "p" in let E := fresh "E" in
   intros a s [-> HPs] p E; cbn in E;
   first [ discriminate E
-        | (inversion E; subst; first [ (apply valok_nonrec; intros; discriminate) | (decompose [and] HPs; eauto) ]) ].
+        | (inversion E; subst; decompose [and] HPs; split; [ first [ (apply valok_nonrec; intros; discriminate) | eauto ] | kind_tac ]) ].
 
 Lemma trR_if_chain_map t c comps : trR (if_chain t c (map (if_comp (fun x => ev_eval self x c) (fun b => ev_run_block self b c)) comps)).
 Proof.
@@ -102,6 +112,9 @@ Ltac evk :=
         | (apply trT_eval_indices; [intros ? ? ?; eapply tr_true; apply He; assumption | stab2])
         | (apply trT_eval_bounds; [intros ? ? ?; eapply tr_true; apply He; assumption | stab2]) ].
 
+Ltac wr_tac := first [eapply newvar_wr0; eassumption | eapply wr_nonconst_meta; eassumption | eapply wr_ptr_meta; eassumption ].
+Ltac valok_tac := first [apply valok_nonrec; intros; discriminate | assumption | (eapply resok_payload; eassumption) | (cbn [c_val]; eapply resok_payload; eassumption)].
+Ltac fits_tac := first [ assumption | (eapply cellmeta_fits; [eassumption | kind_tac]) | (eapply newvar_fits; [eassumption | kind_tac]) ].
 Ltac ent :=
   intros; cbv beta in *;
   repeat match goal with H : _ /\ _ |- _ => destruct H end;
@@ -109,13 +122,14 @@ Ltac ent :=
    [ assumption
    | (eapply own_from_newvar; eassumption)
    | (eapply own_from_cellmeta; [eassumption | reflexivity | eassumption | eassumption])
-   | (split; [ first [eapply newvar_wr0; eassumption | eapply wr_nonconst_meta; eassumption | eapply wr_ptr_meta; eassumption ]
-             | first [apply valok_nonrec; intros; discriminate | assumption | (eapply resok_payload; eassumption)] ])
-   | first [eapply newvar_wr0; eassumption | eapply wr_nonconst_meta; eassumption ]
+   | (split; [ wr_tac | split; [ valok_tac | fits_tac ] ])
+   | (split; [ wr_tac | fits_tac ])
+   | (cbn [c_val c_type]; split; [ valok_tac | kind_tac ])
+   | wr_tac
    | (eapply resok_payload; eassumption)
    | (apply nonconst_wr; match goal with H : Forall _ _ |- _ => rewrite Forall_forall in H; apply H; assumption end)
    | (cbn [c_val]; eapply resok_payload; eassumption)
-   | (let p := fresh in let E := fresh in intros p E; cbn in E; inversion E; subst; match goal with H : forall tn k, _ <> PRec tn k |- _ => apply valok_nonrec; exact H end) ].
+   | (let p := fresh in let E := fresh in intros p E; cbn in E; inversion E; subst; split; [ match goal with H : forall tn k, _ <> PRec tn k |- _ => apply valok_nonrec; exact H end | kind_tac ]) ].
 
 Lemma tr_eval_case (P : st -> Prop) x1 ctx0 : stable P -> tr P (eval_body ped lim self (NInt x1) ctx0) (fun r s => resok r s).
 Proof.
